@@ -11,6 +11,13 @@ use std::time::{Duration, UNIX_EPOCH};
 
 thread_local! {
     static VIRTUAL_NOW_US: Cell<Option<u64>> = const { Cell::new(None) };
+    static VIRTUAL_TICK_US: Cell<u64> = const { Cell::new(0) };
+}
+
+/// Let the pinned clock of this thread advance by `us` microseconds on every reading (0 = stand still):
+/// a function that reads the clock twice then sees two different instants.
+pub fn set_virtual_tick_us(us: u64) {
+    VIRTUAL_TICK_US.with(|c| c.set(us));
 }
 
 /// Pin (Some) or release (None) the current thread's clock, in milliseconds since the epoch.
@@ -31,7 +38,13 @@ impl SystemTime {
     /// The pinned instant of this thread, or the real time when none is pinned.
     pub fn now() -> std::time::SystemTime {
         match VIRTUAL_NOW_US.with(|c| c.get()) {
-            Some(us) => UNIX_EPOCH + Duration::from_micros(us),
+            Some(us) => {
+                let tick = VIRTUAL_TICK_US.with(|c| c.get());
+                if tick > 0 {
+                    VIRTUAL_NOW_US.with(|c| c.set(Some(us.saturating_add(tick))));
+                }
+                UNIX_EPOCH + Duration::from_micros(us)
+            }
             None => std::time::SystemTime::now(),
         }
     }
